@@ -456,7 +456,7 @@ impl Check for C15 {
     }
     fn rule(&self, tier: Tier) -> String {
         format!(
-            "alphabet: (a) the complete input domain of try_new and TryFrom of VlanId, IpFragOffset (2^16), VlanPcp, IpDscp, IpEcn, MacsecAn, MacsecShortLen, Qrv (2^8), Ipv6FlowLabel ({}); \
+            "alphabet: (a) the complete input domain of try_new and TryFrom of VlanId, IpFragOffset (2^16), VlanPcp, IpDscp, IpEcn, MacsecAn, MacsecShortLen, Qrv (2^8), Ipv6FlowLabel ({}), plus every other safe way to obtain such a value (MacsecShortLen::from_len over 0..=70000 and 2^k±1 up to usize::MAX, the named constants, Default) and the conversions out of the types; \
              (b) encode: for SingleVlanHeader, Ipv4Header, Ipv6Header, Ipv6FragmentHeader, MacsecHeader and the IGMPv3 query byte-8 setters every value of every field of <= {} bits (boundary patterns 2^k, 2^k-1, ~2^k above) x 4 backgrounds (all other fields min / max / alternating); \
              (c) decode: every value of the 1-3 bytes holding each bit field x backgrounds 0x00/0xff through every decoder of the header (struct from_slice/from_bytes and *Slice accessors). \
              oracle: Ok(v) with v.value()==x iff x < 2^bits else Err{{actual:x,max_allowed:2^bits-1}}; encoded bytes == reference bit placement from the RFC diagram (so the XOR against the baseline is confined to the field's mask); decoded values == reference bit extraction and <= max. \
@@ -469,10 +469,10 @@ impl Check for C15 {
         vec!["bit positions of the reference are transcribed from RFC 791/8200, IEEE 802.1Q/802.1AE and RFC 3376 diagrams".into()]
     }
     fn units(&self, tier: Tier) -> u64 {
-        N_CTOR + Self::flow_units(tier) + (HDRS.len() as u64) * 5 + 2
+        N_CTOR + Self::flow_units(tier) + (HDRS.len() as u64) * 5 + 3
     }
     fn expect_reach(&self, _tier: Tier) -> Vec<String> {
-        vec!["ctor-ok".into(), "ctor-err".into(), "enc".into(), "dec-ok".into(), "dec-err".into(), "igmp-byte8".into(), "ipv6-traffic-class".into()]
+        vec!["ctor-ok".into(), "ctor-err".into(), "enc".into(), "dec-ok".into(), "dec-err".into(), "igmp-byte8".into(), "ipv6-traffic-class".into(), "other-safe-constructors".into()]
     }
     fn run_unit(&self, tier: Tier, u: u64, ctx: &mut Ctx) {
         let thorough = tier.is_thorough();
@@ -700,6 +700,133 @@ impl Check for C15 {
                     }
                 }
             }
+            return;
+        }
+        if u == (HDRS.len() as u64) * 5 + 2 {
+            // ---- every other safe way to obtain a value of a bounded type: the saturating MacsecShortLen::from_len, the
+            // named constants, Default, and the conversions out of the types
+            ctx.case(
+                None,
+                || CaseDesc { shape: "other-safe-constructors".into(), text: "MacsecShortLen::from_len over 0..=70000 and 2^k, 2^k±1 up to usize::MAX; named constants and Default of every bounded type; From<T> for the integer; IpFragOffset::byte_offset".into(), rank: 0 },
+                |case| {
+                    case.at("MacsecShortLen::from_len");
+                    let mut lens: Vec<usize> = (0..=70_000usize).collect();
+                    for k in 0..usize::BITS {
+                        let p = 1usize << k;
+                        lens.extend([p - 1, p, p.saturating_add(1)]);
+                    }
+                    lens.push(usize::MAX);
+                    let mut n = 0u64;
+                    for l in &lens {
+                        let v = MacsecShortLen::from_len(*l).value();
+                        n += 1;
+                        // documented: lengths the 6 bit field cannot represent give the "unknown" value 0
+                        let want = if *l <= 63 { *l as u8 } else { 0 };
+                        if v > 63 {
+                            case.fail("safe-ctor-out-of-range:MacsecShortLen::from_len", format!("MacsecShortLen::from_len({}).value() == {} which does not fit 6 bits", l, v));
+                            break;
+                        } else if v != want {
+                            case.fail("safe-ctor-wrong-value:MacsecShortLen::from_len", format!("MacsecShortLen::from_len({}).value() == {}, expected {}", l, v, want));
+                            break;
+                        }
+                    }
+                    case.at("constants");
+                    let consts: Vec<(&str, u64, u32)> = vec![
+                        ("VlanId::ZERO", VlanId::ZERO.value() as u64, 12),
+                        ("VlanId::default", VlanId::default().value() as u64, 12),
+                        ("VlanPcp::ZERO", VlanPcp::ZERO.value() as u64, 3),
+                        ("VlanPcp::default", VlanPcp::default().value() as u64, 3),
+                        ("IpDscp::ZERO", IpDscp::ZERO.value() as u64, 6),
+                        ("IpDscp::MAX", IpDscp::MAX.value() as u64, 6),
+                        ("IpDscp::default", IpDscp::default().value() as u64, 6),
+                        ("IpDscp::CS0", IpDscp::CS0.value() as u64, 6),
+                        ("IpDscp::CS1", IpDscp::CS1.value() as u64, 6),
+                        ("IpDscp::CS2", IpDscp::CS2.value() as u64, 6),
+                        ("IpDscp::CS3", IpDscp::CS3.value() as u64, 6),
+                        ("IpDscp::CS4", IpDscp::CS4.value() as u64, 6),
+                        ("IpDscp::CS5", IpDscp::CS5.value() as u64, 6),
+                        ("IpDscp::CS6", IpDscp::CS6.value() as u64, 6),
+                        ("IpDscp::CS7", IpDscp::CS7.value() as u64, 6),
+                        ("IpDscp::AF11", IpDscp::AF11.value() as u64, 6),
+                        ("IpDscp::AF12", IpDscp::AF12.value() as u64, 6),
+                        ("IpDscp::AF13", IpDscp::AF13.value() as u64, 6),
+                        ("IpDscp::AF21", IpDscp::AF21.value() as u64, 6),
+                        ("IpDscp::AF22", IpDscp::AF22.value() as u64, 6),
+                        ("IpDscp::AF23", IpDscp::AF23.value() as u64, 6),
+                        ("IpDscp::AF31", IpDscp::AF31.value() as u64, 6),
+                        ("IpDscp::AF32", IpDscp::AF32.value() as u64, 6),
+                        ("IpDscp::AF33", IpDscp::AF33.value() as u64, 6),
+                        ("IpDscp::AF41", IpDscp::AF41.value() as u64, 6),
+                        ("IpDscp::AF42", IpDscp::AF42.value() as u64, 6),
+                        ("IpDscp::AF43", IpDscp::AF43.value() as u64, 6),
+                        ("IpDscp::EF", IpDscp::EF.value() as u64, 6),
+                        ("IpDscp::VOICE_ADMIT", IpDscp::VOICE_ADMIT.value() as u64, 6),
+                        ("IpDscp::LOWER_EFFORT", IpDscp::LOWER_EFFORT.value() as u64, 6),
+                        ("IpEcn::ZERO", IpEcn::ZERO.value() as u64, 2),
+                        ("IpEcn::ONE", IpEcn::ONE.value() as u64, 2),
+                        ("IpEcn::TWO", IpEcn::TWO.value() as u64, 2),
+                        ("IpEcn::THREE", IpEcn::THREE.value() as u64, 2),
+                        ("IpEcn::default", IpEcn::default().value() as u64, 2),
+                        ("IpFragOffset::ZERO", IpFragOffset::ZERO.value() as u64, 13),
+                        ("IpFragOffset::default", IpFragOffset::default().value() as u64, 13),
+                        ("Ipv6FlowLabel::ZERO", Ipv6FlowLabel::ZERO.value() as u64, 20),
+                        ("Ipv6FlowLabel::default", Ipv6FlowLabel::default().value() as u64, 20),
+                        ("MacsecAn::ZERO", MacsecAn::ZERO.value() as u64, 2),
+                        ("MacsecAn::default", MacsecAn::default().value() as u64, 2),
+                        ("MacsecShortLen::ZERO", MacsecShortLen::ZERO.value() as u64, 6),
+                        ("MacsecShortLen::default", MacsecShortLen::default().value() as u64, 6),
+                        ("Qrv::ZERO", igmp::Qrv::ZERO.value() as u64, 3),
+                        ("Qrv::MAX", igmp::Qrv::MAX.value() as u64, 3),
+                        ("Qrv::default", igmp::Qrv::default().value() as u64, 3),
+                    ];
+                    for (name, v, bits) in &consts {
+                        n += 1;
+                        if *v >= (1u64 << bits) {
+                            case.fail(format!("safe-ctor-out-of-range:{}", name), format!("{} has the value {} which does not fit {} bits", name, v, bits));
+                        }
+                    }
+                    case.at("conversions");
+                    for x in 0..=0x1fffu16 {
+                        n += 2;
+                        let o = IpFragOffset::try_new(x).unwrap();
+                        if o.byte_offset() != x * 8 || u16::from(o) != x {
+                            case.fail("conversion:IpFragOffset", format!("IpFragOffset({}): byte_offset() {} u16::from {}", x, o.byte_offset(), u16::from(o)));
+                            break;
+                        }
+                    }
+                    for x in 0..=0x0fffu16 {
+                        n += 1;
+                        if u16::from(VlanId::try_new(x).unwrap()) != x {
+                            case.fail("conversion:VlanId", format!("u16::from(VlanId({})) differs", x));
+                            break;
+                        }
+                    }
+                    for x in 0..=63u8 {
+                        n += 2;
+                        if u8::from(IpDscp::try_new(x).unwrap()) != x || u8::from(MacsecShortLen::try_from_u8(x).unwrap()) != x {
+                            case.fail("conversion:u8", format!("u8::from of IpDscp / MacsecShortLen({}) differs", x));
+                            break;
+                        }
+                    }
+                    for x in 0..=7u8 {
+                        n += 2;
+                        if u8::from(VlanPcp::try_new(x).unwrap()) != x || u8::from(igmp::Qrv::try_new(x).unwrap()) != x {
+                            case.fail("conversion:u8", format!("u8::from of VlanPcp / Qrv({}) differs", x));
+                        }
+                    }
+                    for x in 0..=3u8 {
+                        n += 2;
+                        if u8::from(IpEcn::try_new(x).unwrap()) != x || u8::from(MacsecAn::try_new(x).unwrap()) != x {
+                            case.fail("conversion:u8", format!("u8::from of IpEcn / MacsecAn({}) differs", x));
+                        }
+                    }
+                    case.states(n);
+                    case.evals(n);
+                    case.nontrivial_n(n.saturating_sub(20));
+                    case.reach("other-safe-constructors");
+                    case.outcome("other-safe-constructors".to_string());
+                },
+            );
             return;
         }
         if u == (HDRS.len() as u64) * 5 + 1 {
